@@ -340,6 +340,7 @@ def _more(name):
 
 
 RULES = [
+    ("C15.R10", "P1", lambda ctx: r10_spellings_normalise_identically(ctx), "every spelling of an annotation has the same normal form (normaliser interpreted)"),
     ("C15.R5", "P1", r5, "every value of a Literal counts on every code path (sibling footprints)"),
     ("C15.R1", "P1", r1_union_spellings_one_path, "three union spellings, one path"),
     ("C15.R2", "P1", r2_normaliser_front, "strings first, Annotated unwrapped"),
@@ -347,3 +348,100 @@ RULES = [
     ("C15.R4", "P1", r4_commutative_combinators, "commutative combinators compare without order"),
     ("C15.R6", "P1", _more("hash_reads_what_eq_compares"), "hash consults only what equality compares"),
 ]
+
+
+def r10_spellings_normalise_identically(ctx):
+    """Interpret the normaliser's `__call__` on the different spellings of one annotation: every spelling of
+    `int | str` (PEP 604, typing.Union, tuple, string, inside Annotated) gives the same normal form, and so does
+    every spelling of "anything" and of "any class"."""
+    import inspect
+    import types
+    import typing
+
+    from ..metainterp import Closure, HostFn, HostInterp, Instance, Raised, Record
+
+    repo = ctx.repo
+    nz = A.normalizer(repo)
+    call = nz.methods["__call__"]
+    ctx.touch(call)
+    methods = {n: m.node for n, m in nz.methods.items()}
+
+    class Sub:
+        def __init__(self, name):
+            self.name = name
+
+        def __getitem__(self, item):
+            return (self.name, tuple(item) if isinstance(item, (tuple, list)) else (item,))
+
+    class DependentStandIn:
+        pass
+
+    union_types = tuple(t for t in (type(typing.Union[int, str]), getattr(types, "UnionType", None)) if t is not None)
+    # the registered generic handlers of the package, by the generic they are registered for
+    table = {}
+    for f, g in A.generic_handlers(repo):
+        if dotted(g) in ("typing.Union", "Union"):
+            table[typing.Union] = {Closure(f.node, {}): 0}
+    ns = {"int": int, "str": str, "typing": typing, "type": type, "Any": typing.Any, "Union": typing.Union}
+    genv = {
+        "typing": typing, "inspect": inspect, "types": types,
+        "UnionTypes": union_types, "UnionType": getattr(types, "UnionType", None), "Union": Sub("Union"),
+        "DependentType": DependentStandIn, "UsageError": Record(kind="UsageError"),
+        "eval": lambda text, *a: eval(text, dict(a[0]) if a and isinstance(a[0], dict) else dict(ns)),
+        "get_args": typing.get_args, "get_origin": typing.get_origin,
+    }
+    me = Instance(nz.name, methods)
+    me.__dict__["generic_handlers"] = table
+    init = nz.methods.get("__init__")
+    funcs = {n: g.node for n, g in nz.module.funcs.items() if g.parent is None and g.cls is None and not g.node.decorator_list}
+    hi = HostInterp(methods, me, {}, globals_env=genv, classes={}, functions=funcs)
+    hi.host_types = hi.host_types + (Sub,)
+    fn = Record(__globals__=ns, __module__="m", __name__="f", __qualname__="f")
+    if init is not None:
+        ctx.touch(init)
+        try:
+            hi.call_function(init.node, [me, table], {}, {})
+        except (AnalysisError, Raised):
+            pass
+        me.__dict__["generic_handlers"] = table
+
+    def norm(t, fn=fn):
+        try:
+            return hi.call_function(call.node, [me, t, fn], {}, {})
+        except Raised as r:
+            return f"raises {r.what}"
+        except (TypeError, KeyError, AttributeError) as ex:
+            raise AnalysisError(f"{call.key}: not interpretable on {t!r}: {type(ex).__name__}: {ex}")
+
+    groups = {
+        "int | str": [("typing.Union[int, str]", typing.Union[int, str]), ("(int, str)", (int, str)), ("'typing.Union[int, str]'", "typing.Union[int, str]"), ("Annotated[Union[int, str], ..]", typing.Annotated[typing.Union[int, str], "m"])],
+        "anything": [("typing.Any", typing.Any), ("no annotation", inspect._empty), ("'Any'", "Any"), ("object", object)],
+        "any class": [("type", type), ("'type'", "type"), ("type[object]", type[object])],
+        "a plain class": [("int", int), ("'int'", "int"), ("Annotated[int, ..]", typing.Annotated[int, "m"])],
+    }
+    if hasattr(types, "UnionType"):
+        groups["int | str"] += [("int | str", int | str), ("'int | str'", "int | str"), ("Annotated[int | str, ..]", typing.Annotated[int | str, "m"])]
+    for what, spellings in groups.items():
+        results = [(label, norm(t)) for label, t in spellings]
+        ref = results[0][1]
+        diff = [(label, r) for label, r in results if r != ref or type(r) is not type(ref)]
+        ctx.ob(
+            f"{call.key}:spellings:{what}",
+            call.loc(),
+            f"every spelling of {what} ({', '.join(l for l, _ in spellings)}) has the same normal form (normaliser interpreted)",
+            not diff,
+            (f"{results[0][0]} normalises to {ref!r} but {diff[0][0]} to {diff[0][1]!r}: the same annotation written another way registers another signature (or one nothing matches)" if diff else ""),
+        )
+
+    # a string annotation means what it means in the globals of the function it annotates
+    ns2 = dict(ns, T=str)
+    f1 = Record(__globals__=dict(ns, T=int), __module__="m", __name__="f", __qualname__="f")
+    f2 = Record(__globals__=ns2, __module__="m", __name__="f", __qualname__="f")
+    got = [norm("T", f1), norm("T", f2), norm("T", f1)]
+    ctx.ob(
+        f"{call.key}:spellings:string-in-its-own-globals",
+        call.loc(),
+        "a string annotation is evaluated in the globals of the function it annotates, each time (normaliser interpreted on two functions of one module whose globals differ)",
+        got == [int, str, int],
+        f"'T' under globals T=int, T=str, T=int normalises to {got!r}: the meaning of a string annotation is taken from another function",
+    )
